@@ -43,6 +43,9 @@ MEDIA = [
     'application/rss+xml', 'application/xhtml+xml', 'text/xml', 'Text/XML', 'text/xml-external-parsed-entity', 'text/foo+xml',
     'text/html', 'TEXT/HTML', 'text/css', 'text/CSS', 'text/plain', 'text/javascript', 'application/octet-stream', 'image/png',
     'application/json', 'text/xmlish',
+    # structured-syntax suffixes in subtypes with dots, further '+' and digits; parameters and case
+    'application/vnd.mozilla.xul+xml', 'application/vnd.google-earth.kml+xml', 'application/xhtml+voice+xml', 'text/vnd.x.y+xml', 'APPLICATION/ATOM+XML', 'application/x.a_b-1+xml',
+    'application/xml+foo', 'application/vnd.foo+json', 'text/x.html',
 ]  # None = no response object; '' = response without Content-Type header
 CHARSETS = [None, 'utf-8', 'ISO-8859-1', 'koi8-r']
 XMLS = [
